@@ -76,7 +76,7 @@ def case_line(c):
     cts = types_for(c["classes"], maxcurv=c.get("maxcurv", 2.5e7))
     p = tissue.params(dt=1e-7, damping=5e-10, T=1.0, S=1.0, lmin=c["lmin"], cut_adh=c["cut_adh"], cut_rep=c["cut_rep"], swap=0)
     cells = [(i, n, f) for i, (n, f) in enumerate(c["cells"])]
-    return tissue.fmt_tissue(p, cts, cells) + " CT 1 " + " ".join(str(i) for i in c["ids"])
+    return tissue.fmt_tissue(p, cts, cells) + " CT %d " % c.get("threads", 1) + " ".join(str(i) for i in c["ids"])
 
 
 def parse_state(sec):
